@@ -161,15 +161,28 @@ def check(ctx):
             continue
         v = st.value
         okl = False
-        if isinstance(v, ast.Tuple) and len(v.elts) == 3 and isinstance(v.elts[1], ast.Name) and v.elts[1].id == lockname:
-            # the lock variable was freshly created on this path
-            prev = [a for a in own_walk(fn) if isinstance(a, ast.Assign) and isinstance(a.value, ast.Tuple) and len(a.value.elts) == 3
-                    and isinstance(a.value.elts[1], ast.Call) and getattr(a.value.elts[1].func, "id", "") == "Lock"
-                    and a._parent is st._parent and a.lineno < st.lineno]
-            okl = bool(prev)
-            if okl:
-                cv = prev[-1].value.elts[0]
-                okl = isinstance(cv, ast.Name) and cv.id == "initial_missing"
+        if isinstance(v, ast.Tuple) and len(v.elts) == 3:
+            # the value stored in each slot: written in the tuple itself, or assigned to the slot's variable earlier in the same block
+            # (one parallel assignment or one statement per variable - the engine writes `a, b, c = x, y, z` as three statements)
+            blk_ = next((getattr(st._parent, fl) for fl in ("body", "orelse", "finalbody") if isinstance(getattr(st._parent, fl, None), list) and st in getattr(st._parent, fl)), [st])
+            before = blk_[: blk_.index(st)]
+
+            def slot(e):
+                if not isinstance(e, ast.Name):
+                    return e
+                for a in reversed(before):
+                    if isinstance(a, ast.Assign) and len(a.targets) == 1:
+                        if isinstance(a.targets[0], ast.Name) and a.targets[0].id == e.id:
+                            return a.value
+                        if isinstance(a.targets[0], ast.Tuple) and isinstance(a.value, ast.Tuple) and len(a.targets[0].elts) == len(a.value.elts):
+                            for t_, v_ in zip(a.targets[0].elts, a.value.elts):
+                                if isinstance(t_, ast.Name) and t_.id == e.id:
+                                    return v_
+                return e
+
+            s0, s1, s2 = (slot(x) for x in v.elts)
+            okl = isinstance(s0, ast.Name) and s0.id == "initial_missing" and isinstance(s1, ast.Call) and getattr(s1.func, "id", "") == "Lock" \
+                and isinstance(s2, ast.Constant) and s2.value is None
         ctx.ob("R20-c", call, "a placeholder carries its own fresh Lock and the `initial_missing` marker", okl, node=st,
                detail="" if okl else f"`{norm(st)}`: the placeholder is not (initial_missing, Lock(...), None) created right before the store - "
                                       f"callers with different keys would share a lock, or waiters could not recognise the placeholder",
